@@ -85,5 +85,6 @@ var engineKinds = map[string]string{
 	"routesim":  "real routing-mode stream handlers + shard manager between fake Temporal shards, in-memory gRPC-semantics streams, virtual time (testing/synctest), probe logger, online trace oracles",
 	"fwdsim":    "real pass-through stream handler (default/LCM modes) and stream-open metadata handling between in-memory peers, virtual time, goroutine census",
 	"xlate":     "real namespace / search-attribute translators and access-control interceptor on descriptor-enumerated and random messages vs an independent protoreflect oracle",
+	"utf8":      "real RepairUTF8Codec and blob-repair path on wire bytes generated from the legacy gogo schema by reflection, vs the standard codec on a sanitised twin",
 	"ringmodel": "real ring buffer vs reference model, exhaustive-bounded + random operation sequences",
 }
